@@ -86,6 +86,16 @@ func postFormSlice(req *protocol.Request, params param.Params, key string, defau
 		return
 	}
 
+	// (as postForm does for a single value: the query carries the key if the body does not)
+	req.URI().QueryArgs().VisitAll(func(queryKey, value []byte) {
+		if key == bytesconv.B2s(queryKey) {
+			ret = append(ret, string(value))
+		}
+	})
+	if len(ret) > 0 {
+		return
+	}
+
 	if len(ret) == 0 && len(defaultValue) != 0 {
 		ret = append(ret, defaultValue...)
 	}
